@@ -214,12 +214,13 @@ Definition isdir_in (p : bytes) (t : fs) : Prop := exists e, In e t /\ f_path e 
 Record wf_fs (w : world) : Prop := {
   wf_paths : NoDup (map f_path (w_fs w));
   wf_inos : NoDup (map f_ino (w_fs w));
-  wf_fresh : forall e, In e (w_fs w) -> (f_ino e < w_next_ino w)%N;
+  wf_fresh : forall e, In e (w_fs w) -> (0 < f_ino e < w_next_ino w)%N;
   wf_np : forall e, In e (w_fs w) -> npath (f_path e);
   (* parent-closed: an entry lying below another entry has its parent directory in the file system;
      the remaining entries are the top entries *)
   wf_parent : forall e d, In e (w_fs w) -> In d (w_fs w) -> under (f_path d) (f_path e) = true ->
-              isdir_in (dirname (f_path e)) (w_fs w)
+              isdir_in (dirname (f_path e)) (w_fs w);
+  wf_next : (0 < w_next_ino w)%N          (* inode 0 is "no such entry" (ino_of) *)
 }.
 
 Lemma flookup_some p t e : flookup p t = Some e -> In e t /\ f_path e = p.
@@ -373,8 +374,8 @@ Lemma wf_add w p isd : wf_fs w -> npath p -> fisdir (dirname p) (w_fs w) = true 
   wf_fs {| w_fs := w_fs w ++ [{| f_path := p; f_ino := w_next_ino w; f_dir := isd |}];
            w_next_ino := w_next_ino w + 1 |}.
 Proof.
-  intros W Hp Hd Hx. apply fisdir_in in Hd. apply fexists_false in Hx.
-  constructor; simpl.
+  intros W Hp Hd Hx. apply fisdir_in in Hd. apply fexists_false in Hx. assert (Hn := wf_next w W).
+  constructor; simpl; [| | | | |lia].
   - rewrite map_app. simpl. apply NoDup_snoc; [apply W | exact Hx].
   - rewrite map_app. simpl. apply NoDup_snoc; [apply W|].
     intros Hin. apply in_map_iff in Hin as (e & Ee & He). apply (wf_fresh w W) in He. lia.
@@ -394,7 +395,7 @@ Lemma wf_remove w p : wf_fs w ->
   (forall e, In e (w_fs w) -> dirname (f_path e) = p -> f_path e <> p -> isdir_in p (w_fs w) -> False) ->
   wf_fs {| w_fs := fremove p (w_fs w); w_next_ino := w_next_ino w |}.
 Proof.
-  intros W Hc. unfold fremove. constructor; simpl.
+  intros W Hc. unfold fremove. constructor; simpl; [| | | | |apply W].
   - apply NoDup_map_filter, W.
   - apply NoDup_map_filter, W.
   - intros e He. apply filter_In in He as [He _]. now apply (wf_fresh w W).
@@ -475,7 +476,7 @@ Proof.
     - intros E. rewrite Edq in E. rewrite <- E in Hpq. rewrite under_dirname in Hpq by assumption. discriminate.
     - destruct (under p (f_path dq)) eqn:E; [|reflexivity].
       rewrite Edq in E. rewrite (under_trans _ _ _ E (under_dirname _ Nq)) in Hpq. discriminate. }
-  rewrite frename_map. constructor; simpl.
+  rewrite frename_map. constructor; simpl; [| | | | |apply W].
   - rewrite map_map. rewrite (map_ext _ (fun e => rk p q (f_path e))) by apply ren_path.
     rewrite <- map_map. apply NoDup_map_in; [|apply W].
     intros a b Ha Hb E.
@@ -2062,7 +2063,7 @@ Section Cover.
     intros M W Hroot Hc. destruct (construct_cover w W Hroot) as (r0 & k0 & Hcons & I & Cv & Hq & _).
     assert (S : RSync w k0 r0) by (constructor; try assumption; now apply fisdir_in).
     destruct (cover_sequential ops M w k0 r0 S Hc) as (w' & k' & r' & Hrun & S').
-    exists r0, k0, w', k', r'. repeat split; try assumption; apply S'.
+    exists r0, k0, w', k', r'. split; [assumption|]. split; [assumption|]. split; apply S'.
   Qed.
 End Cover.
 
@@ -2169,7 +2170,7 @@ Proof.
   assert (NO : npath pO) by (apply (npath_sub [47;115]%N 79 GS); reflexivity).
   assert (ND : npath (sub pO 100)) by (apply npath_sub; [now apply npath_gpath | reflexivity]).
   assert (NE : npath (sub (sub pO 100) 101)) by (apply npath_sub; [now apply npath_gpath | reflexivity]).
-  constructor; cbn [w0 w_fs w_next_ino map f_path f_ino].
+  constructor; cbn [w0 w_fs w_next_ino map f_path f_ino]; [| | | | |lia].
   - repeat constructor; cbn; intuition discriminate.
   - repeat constructor; cbn; intuition discriminate.
   - intros e [<-|[<-|[<-|[<-|[]]]]]; cbn; lia.
